@@ -52,6 +52,12 @@ def isPanic {α} : Res α → Bool
   | panic _ => true
   | _ => false
 
+/-- Forget the value. -/
+def toUnit {α} : Res α → Res Unit
+  | ok _ => ok ()
+  | err e => err e
+  | panic s => panic s
+
 def map {α β} (f : α → β) : Res α → Res β
   | ok a => ok (f a)
   | err e => err e
